@@ -104,6 +104,11 @@ func runUpDown(vec map[string]interface{}) map[string]interface{} {
 	}
 	obs["tlist"] = tl
 	obs["qlist"] = ql
+	if gBool(vec, "cli") {
+		for k, v := range cliRun(cliCase{files: map[string][]byte{"ref.fa": refFa, "t.fa": tFa}, args: []string{"updown", "list", "-r", "@ref.fa", "-q", "@t.fa"}, inproc: string(tCsv)}) {
+			obs["list_"+k] = v
+		}
+	}
 	if _, has := vec["opts"]; !has {
 		return obs
 	}
@@ -161,6 +166,27 @@ func runUpDown(vec map[string]interface{}) map[string]interface{} {
 		}
 	}
 	res["rows"] = rows
+	if gBool(vec, "cli") && err == nil {
+		args := []string{"updown", "topranking", "-q", "@q.fasta", "-t", "@t.fasta", "-r", "@ref.fa"}
+		for _, f := range [][2]string{{"--size-total", "sizetotal"}, {"--size-up", "sizeup"}, {"--size-down", "sizedown"}, {"--size-side", "sizeside"},
+			{"--size-same", "sizesame"}, {"--dist-all", "distall"}, {"--dist-up", "distup"}, {"--dist-down", "distdown"}, {"--dist-side", "distside"},
+			{"--dist-push", "push"}} {
+			args = flagInt(args, f[0], gIntD(o, f[1], 0), 0)
+		}
+		args = flagBool(flagBool(args, "--no-fill", gBool(o, "nofill")), "--table", table)
+		if den := gIntD(o, "thrden", 0); den > 0 {
+			args = append(args, "--threshold-pair", strconv.FormatFloat(float64(gInt(o, "thrnum"))/float64(den), 'f', -1, 64))
+		}
+		args = append(args, "--threshold-target", itoa(gIntD(o, "thrtarget", 10000)))
+		files := map[string][]byte{"q.fasta": qFa, "t.fasta": tFa, "ref.fa": refFa}
+		if len(ignore) > 0 {
+			files["ignore.txt"] = []byte(strings.Join(ignore, "\n") + "\n")
+			args = append(args, "--ignore", "@ignore.txt")
+		}
+		for k, v := range cliRun(cliCase{files: files, args: args, inproc: ff}) {
+			res[k] = v
+		}
+	}
 	obs["top"] = res
 	if gBool(vec, "combos") {
 		c := map[string]interface{}{}
